@@ -116,13 +116,45 @@ def _takeslice_cases(shard):
             yield {"source": src, "expr": f.format(p=p), "nexpr": fnn.format(pn=pn, p=p), "label": "take-slice-sweep>demean>id", "pre": p, "fn": "demean", "exact": False, "np_raises_must_raise": False, "may_refuse": []}
 
 
+def _swvsweep_cases(shard):
+    """Windowed reductions (whose rewrite may settle on another layout with the
+    SAME number of blocks) below a block_info consumer, on longer axes: every
+    chunking of n = 7, 8."""
+    src = E.src((shard["n"],), (tuple(shard["chunks"][0]),))
+    for w in (2, 3):
+        for red in ("sum", "max"):
+            p = f"da.sliding_window_view(x, {w}, axis=0).{red}(axis=-1)"
+            pn = f"np.lib.stride_tricks.sliding_window_view(a, {w}, axis=0).{red}(axis=-1)"
+            for fname in ("info", "both"):
+                f, fnn = FNS[fname]
+                yield {"source": src, "expr": f.format(p=p), "nexpr": fnn.format(pn=pn, p=p), "label": f"swvsweep{w}-{red}>{fname}>id", "pre": p, "fn": fname, "exact": False, "np_raises_must_raise": False, "may_refuse": []}
+
+
+def _mixed_rank_cases(src, shape):
+    """Two inputs of different rank (2-d x, 1-d v on x's last axis) under
+    drop_axis: block_info of the lower-rank input must describe the block of v
+    the function actually receives."""
+    m = shape[1]
+    # map_blocks does not align its inputs (blocks are matched by position, a
+    # single block broadcasts): v gets x's chunking of the shared axis
+    for vch in [tuple(src["chunks"][1])]:
+        v = f"da.from_array(np.arange({m}) + 100.0, chunks=({vch!r},))"
+        yield {"source": src, "expr": f"da.map_blocks(uf.rec_two_mixed0, x, {v}, dtype='f8', drop_axis=0)", "nexpr": f"a.sum(axis=0) + (np.arange({m}) + 100.0)", "label": "mixed-rank>drop0>id", "pre": "x", "fn": "mixed", "exact": False, "np_raises_must_raise": False, "may_refuse": ["ValueError"]}
+        yield {"source": src, "expr": f"da.map_blocks(uf.rec_two_mixed1, x, {v}, dtype='f8', drop_axis=1)", "nexpr": f"a.sum(axis=1) + (np.arange({m}) + 100.0).sum()", "label": "mixed-rank>drop1>id", "pre": "x", "fn": "mixed", "exact": False, "np_raises_must_raise": False, "may_refuse": ["ValueError"]}
+
+
 def gen_cases(shard):
     if shard.get("what") == "takeslice":
         yield from _takeslice_cases(shard)
         return
+    if shard.get("what") == "swvsweep":
+        yield from _swvsweep_cases(shard)
+        return
     src = E.src(tuple(shard["shape"]), tuple(tuple(c) for c in shard["chunks"]))
     nd = len(shard["shape"])
     yield from _cases(src, PRE_1D if nd == 1 else PRE_2D, nd)
+    if nd == 2:
+        yield from _mixed_rank_cases(src, tuple(shard["shape"]))
 
 
 def plan_shards(tier):
@@ -131,8 +163,13 @@ def plan_shards(tier):
     for c in chs if tier != "quick" else chs[::5]:
         shards.append({"shape": [6], "chunks": [list(c)]})
     c2 = list(itertools.product(compositions(3), compositions(4)))
-    for c in c2 if tier != "quick" else c2[::8]:
+    for c in c2 if tier != "quick" else c2[::7]:
         shards.append({"shape": [3, 4], "chunks": [list(k) for k in c]})
+    for n in (7, 8):
+        cn = compositions(n)
+        for k in range(0, len(cn), 16):
+            for c in cn[k : k + 16]:
+                shards.append({"what": "swvsweep", "n": n, "shape": [n], "chunks": [list(c)]})
     parts = 1 if tier == "quick" else 4
     for c in chs:
         for part in range(parts):
@@ -161,6 +198,16 @@ def _extra(case, y, val, ref, a, x):
     if not log and np.size(ref) > 0:
         return ("never-called", "the recording function was never invoked on a non-empty block")
     for e in log:
+        if e["kind"] == "mixed":
+            ext0 = tuple(hi - lo for lo, hi in e["aloc"])
+            ext1 = tuple(hi - lo for lo, hi in e["aloc1"])
+            if e["bshape"] != ext0:
+                return ("mixed-first-input", f"first input block has shape {e['bshape']} but block_info[0] array-location {e['aloc']}")
+            if e["cbshape"] != ext1:
+                return ("mixed-second-input", f"lower-rank input block has shape {e['cbshape']} but block_info[1] array-location {e['aloc1']} (num-chunks {e['nchunks1']}, chunk-location {e['loc1']})")
+            if e["c0"] != 100.0 + e["aloc1"][0][0]:
+                return ("mixed-second-location", f"lower-rank input block starts with value {e['c0']} but block_info[1] array-location says it starts at index {e['aloc1'][0][0]}")
+            continue
         loc = e["loc"]
         if len(loc) != len(nb) or any(not (0 <= i < n) for i, n in zip(loc, nb)):
             return ("bad-location", f"chunk-location/block_id {loc} outside the advertised grid {nb} (chunks {chunks})")
@@ -186,7 +233,7 @@ def _extra(case, y, val, ref, a, x):
 
 _m = CC.make(
     "C20", gen_cases, plan_shards,
-    rule="programs post(map_blocks(rec_fn, pre(x))) for every pre in {identity, rechunks, slices, concatenate, take, elemwise of differently chunked leaves, sliding-window reductions, cumsum, reshape, broadcast_to, transpose, reductions, diff, roll} x rec_fn consuming block_info / block_id / both / with explicit chunks= / two inputs / new_axis / drop_axis x post in {identity, slices, rechunk, reduction, elemwise with a sibling, take, concatenate} over every chunking of (6,) and (3,4): inside the function every invocation's chunk-location, array-location, chunk-shape, num-chunks, shape and the shape of the block received equal the layout pre(x).chunks advertised at the call; values equal NumPy; plus a sweep map_blocks(block-dependent fn, x[perm][i:j]) over every chunking of (6,) x permutation indices (6 in quick, all 720 in thorough) x slices. Non-trivial = multi-block source",
+    rule="programs post(map_blocks(rec_fn, pre(x))) for every pre in {identity, rechunks, slices, concatenate, take, elemwise of differently chunked leaves, sliding-window reductions, cumsum, reshape, broadcast_to, transpose, reductions, diff, roll} x rec_fn consuming block_info / block_id / both / with explicit chunks= / two inputs / two inputs of different rank under drop_axis=0/1 / new_axis / drop_axis x post in {identity, slices, rechunk, reduction, elemwise with a sibling, take, concatenate} over every chunking of (6,) and (3,4): inside the function every invocation's chunk-location, array-location, chunk-shape, num-chunks, shape and the shape of the block received equal the layout pre(x).chunks advertised at the call; values equal NumPy; plus windowed reductions (window 2, 3; sum, max) below a block_info consumer for every chunking of n = 7, 8; plus a sweep map_blocks(block-dependent fn, x[perm][i:j]) over every chunking of (6,) x permutation indices (6 in quick, all 720 in thorough) x slices. Non-trivial = multi-block source",
     assumptions=["calls on empty blocks (meta inference) are ignored", "blocks culled by a slice above need not be invoked; every invocation must be consistent"],
     floors={"accepted": 1500},
     extra=_extra,
